@@ -19,6 +19,9 @@ From the source text of /repo (Python `ast`, nothing imported from mako):
     * `bom`                   - the value of the `codecs.BOM_*` constant named in `text.startswith(codecs.BOM_UTF8)`
                                 (the *name* comes from /repo, the bytes from the interpreter's `codecs` module);
     * `parseSkipsCodingComment` - `parse` calls `self.match_reg(self._coding_re)` before its loop;
+    * `decodeBeforePreprocessors`, `skipAfterPreprocessors` - statement order of `Lexer.parse`: the assignment from
+                                `self.decode_raw_stream(...)` stands before the `for … in self.preprocessor` loop (the
+                                preprocessors get the decoded `str`), the comment skip after it;
   mako/template.py
     * `moduleFallback`        - `"ascii"` of `source.encode(lexer.encoding or "ascii")` in `_compile_module_file`;
     * `magicInText`, `magicInModuleFile` - the `generate_magic_comment=` keyword of `_compile_text` / `_compile_module_file`;
@@ -26,6 +29,8 @@ From the source text of /repo (Python `ast`, nothing imported from mako):
   mako/codegen.py
     * `magicPrefix`, `magicSuffix` - the format `"# -*- coding:%s -*-"` split at `%s`;
     * `namesWrittenAscii`     - `_template_filename` / `_template_uri` are written with `%a` (repair of F-C18-4), not `%r`;
+    * `magicCommentFirst`     - the magic comment is the first thing `write_toplevel` hands to the printer (in source order,
+                                before the `from __future__ import` line), `futurePrefix`/`futureSep` - the format of that line;
   mako/util.py
     * `pyMagicPattern`, `pyMagicVerbose` - `_PYTHON_MAGIC_COMMENT_re`; `parseEncodingBom` - the `"utf_8"` returned for a BOM;
     * `lineCodec`, `lineErrors` - `.decode("ascii", "ignore")` of the two lines `parse_encoding` looks at;
@@ -196,7 +201,18 @@ def lexer_part(repo):
             if (isinstance(n, ast.Call) and isinstance(n.func, ast.Attribute) and n.func.attr == "match_reg"
                     and n.args and isinstance(n.args[0], ast.Attribute) and n.args[0].attr == "_coding_re"):
                 skips = True
-    return dict(pat=pat, default_str=default_str, default_bytes=default_bytes, bom_enc=bom_enc, bom_cmp=bom_cmp,
+    def stmt_index(pred):
+        for i, st in enumerate(prs.body):
+            if any(pred(n) for n in ast.walk(st)):
+                return i
+        return None
+    i_dec = stmt_index(lambda n: isinstance(n, ast.Call) and isinstance(n.func, ast.Attribute) and n.func.attr == "decode_raw_stream")
+    i_pre = stmt_index(lambda n: isinstance(n, ast.For) and isinstance(n.iter, ast.Attribute) and n.iter.attr == "preprocessor")
+    i_skip = stmt_index(lambda n: isinstance(n, ast.Call) and isinstance(n.func, ast.Attribute) and n.func.attr == "match_reg"
+                        and n.args and isinstance(n.args[0], ast.Attribute) and n.args[0].attr == "_coding_re")
+    if i_dec is None or i_pre is None:
+        raise RegenError("%s: Lexer.parse lacks the decode_raw_stream call or the preprocessor loop" % LEX)
+    return dict(dec_first=i_dec < i_pre, skip_after=(i_skip is not None and i_skip > i_pre), pat=pat, default_str=default_str, default_bytes=default_bytes, bom_enc=bom_enc, bom_cmp=bom_cmp,
                 bom=list(getattr(codecs, bom_name)), bom_name=bom_name, bom_strips=strips, by_codec=by_codec,
                 sniff_codec=sniff_codec, sniff_errors=sniff_errors, caught=caught, skips=skips,
                 fp_drs=_fp(drs))
@@ -255,7 +271,28 @@ def codegen_part(repo):
         raise RegenError("%s: `_template_filename = %%r|%%a` / `_template_uri = %%r|%%a` not found: %s" % (CG, convs))
     if len(set(convs.values())) != 1:
         raise RegenError("%s: file name and uri are written with different conversions: %s" % (CG, convs))
-    return dict(pre=pre, suf=suf, names_ascii=list(convs.values())[0] == "%a")
+    cls = find_class(tree, "_GenerateRenderMethod", CG)
+    wt = find_func(cls.body, "write_toplevel", CG)
+    calls = [n for n in ast.walk(wt) if isinstance(n, ast.Call) and isinstance(n.func, ast.Attribute)
+             and isinstance(n.func.value, ast.Attribute) and n.func.value.attr == "printer"]
+    calls.sort(key=lambda n: (n.lineno, n.col_offset))
+    if not calls:
+        raise RegenError("%s: write_toplevel never writes to self.printer" % CG)
+    first = calls[0]
+    magic_first = bool(first.args and isinstance(first.args[0], ast.BinOp) and isinstance(first.args[0].left, ast.Constant)
+                       and first.args[0].left.value == fmt)
+    fut = None
+    for n in ast.walk(wt):
+        if (isinstance(n, ast.BinOp) and isinstance(n.op, ast.Mod) and isinstance(n.left, ast.Constant)
+                and isinstance(n.left.value, str) and "__future__" in n.left.value):
+            seps = [m.func.value.value for m in ast.walk(n.right) if isinstance(m, ast.Call) and isinstance(m.func, ast.Attribute)
+                    and m.func.attr == "join" and isinstance(m.func.value, ast.Constant)]
+            if n.left.value.count("%s") != 1 or not n.left.value.endswith("%s") or len(seps) != 1:
+                raise RegenError("%s: `from __future__ import %%s` line not of the expected form" % CG)
+            fut = (n.left.value[:-2], seps[0])
+    if fut is None:
+        raise RegenError("%s: write_toplevel has no `from __future__ import` line" % CG)
+    return dict(pre=pre, suf=suf, names_ascii=list(convs.values())[0] == "%a", magic_first=magic_first, fut=fut)
 
 
 def util_part(repo):
@@ -343,6 +380,11 @@ def gen(repo):
     d("errors argument of that decode", "sniffErrors", "String", lean_string(lx["sniff_errors"]))
     d("exception class caught around `text.decode(parsed_encoding)`", "decodeErrorCaught", "String", lean_string(lx["caught"]))
     d("`parse` calls `self.match_reg(self._coding_re)` before its loop", "parseSkipsCodingComment", "Bool", _b(lx["skips"]))
+    d("`parse` decodes (`decode_raw_stream`) before it runs the preprocessors", "decodeBeforePreprocessors", "Bool", _b(lx["dec_first"]))
+    d("`parse` skips the coding comment after the preprocessors have run", "skipAfterPreprocessors", "Bool", _b(lx["skip_after"]))
+    d("the magic comment is the first line `write_toplevel` writes (before `from __future__ import`)", "magicCommentFirst", "Bool", _b(cg["magic_first"]))
+    d("`\"from __future__ import %s\"`, before `%s`", "futurePrefix", "List Char", lean_str(cg["fut"][0]))
+    d("the separator the future imports are joined with", "futureSep", "List Char", lean_str(cg["fut"][1]))
     d("`source.encode(lexer.encoding or <this>)` in `_compile_module_file`", "moduleFallback", "List Char", lean_str(tp["fallback"]))
     d("`ModuleInfo.source` drops a leading BOM before decoding", "sourceStripsBom", "Bool", _b(tp["src_strips"]))
     d("`_template_filename` / `_template_uri` are written with %a", "namesWrittenAscii", "Bool", _b(cg["names_ascii"]))
